@@ -139,7 +139,10 @@ def _run_crate(scratch, crate, obs, results, jobs, log):
         real = [x for x in r.failed if x["category"] not in NOT_A_REFUTATION]
         soft = [x for x in r.failed if x["category"] in NOT_A_REFUTATION]
         e = errs.get(o.full_harness, {})
-        if real:
+        if soft and any(x["category"] == "unsupported_construct" for x in soft):
+            # an unsupported construct was REACHED: every other failure in this run may be an artefact of it
+            r.reason = "undecided: unsupported construct reached: " + "; ".join("%s @ %s" % (x["description"][:80], x["location"]) for x in soft[:3])
+        elif real:
             r.status = "refuted"
             r.reason = "; ".join("%s @ %s" % (x["description"], x["location"]) for x in real[:6])
         elif soft:
